@@ -16,6 +16,7 @@ func (W *vWorld) batch(q *vQuerySpec) Batch {
 		f.filter.mask, f.filter.without, f.filter.hasWithout = q.f.mask, q.f.without, q.f.hasWithout
 		f.Register()
 		flt = &f.filter
+		W.regBatch = f
 	}
 	b := Batch{filter: flt}
 	if q.hasRel {
@@ -103,6 +104,7 @@ func vBatchAdd(kind int, withRel bool) {
 	}
 	rec.check("add", &sel)
 	W.checkAll("add")
+	W.batchEpilogue("add", q)
 	vreach("end")
 }
 
@@ -124,6 +126,7 @@ func vBatchRemove(kind int, withRel bool) {
 	}
 	rec.check("remove", &sel)
 	W.checkAll("remove")
+	W.batchEpilogue("remove", q)
 	vreach("end")
 }
 
@@ -158,6 +161,7 @@ func vBatchExchange(kind int) {
 	}
 	rec.check("exchange", &sel)
 	W.checkAll("exchange")
+	W.batchEpilogue("exchange", q)
 	vreach("end")
 }
 
@@ -180,6 +184,7 @@ func vBatchRemoveRelation() {
 	}
 	rec.check("remove-rel", &sel)
 	W.checkAll("remove-rel")
+	W.batchEpilogue("remove-rel", q)
 	vreach("end")
 }
 
@@ -215,6 +220,7 @@ func vBatchExchangeRelation() {
 	}
 	rec.check("exchange-rel", &sel)
 	W.checkAll("exchange-rel")
+	W.batchEpilogue("exchange-rel", q)
 	vreach("end")
 }
 
@@ -245,6 +251,7 @@ func vBatchSetRelations() {
 	}
 	rec.check("setrel", &sel)
 	W.checkAll("setrel")
+	W.batchEpilogue("setrel", q)
 	vreach("end")
 }
 
@@ -269,6 +276,7 @@ func vBatchRemoveEntities(kind int, withRel bool) {
 	}
 	rec.check("remove-entities", &sel)
 	W.checkAll("remove-entities")
+	W.batchEpilogue("remove-entities", q)
 	vreach("end")
 }
 
@@ -453,6 +461,86 @@ func VerifC10_UnusableHandleMatrix() {
 			ex.Exchange(h, &vVel{3})
 		case 23:
 			ex.ExchangeFn(h, nil)
+		}
+	})
+	vreach("end")
+}
+
+// batchEpilogue: when the batch selected through a registered filter, a following batch
+// through another (unregistered) filter must leave the registered filter's cache entry
+// intact — scratch lists handed out by the selection step must not alias the cache.
+func (W *vWorld) batchEpilogue(tag string, q *vQuerySpec) {
+	if W.regBatch == nil {
+		return
+	}
+	W.u.NewEntity(W.id[cT])
+	W.u.NewEntity(W.id[cT])
+	vcheck(tag+"/next-batch-no-panic", !vpanics(func() { W.w.RemoveEntities(NewFilter1[vTag](W.w).Exclusive().Batch(), nil) }))
+	plain := &vQuerySpec{f: q.f}
+	qu := W.regBatch.Query()
+	n, strangers := 0, 0
+	var visits [vNE]int
+	for qu.Next() {
+		if j := W.indexOf(qu.Entity()); j >= 0 {
+			visits[j]++
+			n++
+		} else {
+			strangers++
+		}
+		if n > vNE {
+			break
+		}
+	}
+	W.checkVisits(tag+"/registered-filter-after-next-batch", plain, &visits, strangers, n)
+	W.checkAll(tag + "/after-next-batch")
+}
+
+// ---- C10: "omitting a required relation target ... always panics" — also on a mapper /
+// exchange object that was used WITH a target just before (objects cache converted relations)
+func VerifC10_OmittedTargetAfterUse() {
+	vMode = 0
+	W := vShapeFor(1)
+	p0 := W.e[0].h
+	x, y := 1, 0 // p1 receives the relation validly, then p0 is tried without a target
+	mR := NewMap[vChild](W.w)
+	m1 := NewMap1[vChild](W.w)
+	ex := NewExchange1[vChild](W.w)
+	api := vPick("api", 9)
+	// valid use with a target
+	vcheck("with-target/no-panic", !vpanics(func() {
+		switch api {
+		case 0, 1, 2, 3, 4:
+			mR.Add(W.e[x].h, &vChild{}, p0)
+		case 5, 6:
+			m1.Add(W.e[x].h, &vChild{}, RelIdx(0, p0))
+		default:
+			ex.Add(W.e[x].h, &vChild{}, RelIdx(0, p0))
+		}
+	}))
+	W.e[x].has[cR1] = true
+	W.e[x].tgt[0] = p0
+	W.checkAll("with-target")
+	// the same object, target omitted
+	W.expectReject("target-omitted", func() {
+		switch api {
+		case 0:
+			mR.Add(W.e[y].h, &vChild{})
+		case 1:
+			mR.AddFn(W.e[y].h, nil)
+		case 2:
+			mR.NewEntity(&vChild{})
+		case 3:
+			mR.NewEntityFn(nil)
+		case 4:
+			mR.NewBatchFn(2, nil)
+		case 5:
+			m1.Add(W.e[y].h, &vChild{})
+		case 6:
+			m1.NewEntity(&vChild{})
+		case 7:
+			ex.Add(W.e[y].h, &vChild{})
+		case 8:
+			ex.AddFn(W.e[y].h, nil)
 		}
 	})
 	vreach("end")
